@@ -26,6 +26,16 @@ CLAIMED = {
     note=("Trusted: lianvc + encoding, z3; os.walk / yaml / DataModel query as uninterpreted specifications; opaque analysis callees with an assumed "
           "frame (do not touch the entry-point set); rule files well-typed; args/return_type criteria unused."),
     design='§4 C20'),
+ 'C16': dict(
+    text=("Proof: the representation invariant of DataModel (schema == positions of the current columns; row cache, when marked valid, holds the current "
+          "cells; every entry of the per-column equality index is the ascending position index of the CURRENT frame) is established by __init__, "
+          "re-established by set_refresh_flag for an arbitrary new frame and therefore by modify_row/modify_column/modify_element/rename_column/"
+          "append_data_model/remove_rows/load, preserved by refresh_rows/reset_index/queries; query_index_column_value_indices, "
+          "search_block_start_end_indics, read_block, slice, clone, access, __len__ return exactly the scan of the current frame with valid positions. "
+          "All VCs are generated from the real data_model.py/util.py and discharged by z3 for all frames, all histories (invariant is inductive)."),
+    note=("Trusted: pandas as an uninterpreted library (frame id + observers; snapshots under copy-on-write), lianvc + encoding, z3. Outside: the cache-sharing "
+          "constructor DataModel(other_model), reset_index(move_index_to_column=True), fillna/set_columns, a few convenience queries (listed in the evidence)."),
+    design='§4 C16'),
  'C17': dict(
     text=("Proof: every verification condition generated from the real source of EventManager.{add_handler,register,register_list,notify}, "
           "EventData.__init__ and the 11 functions of event_return.py is discharged by z3 for all inputs, all handler lists and all "
